@@ -46,6 +46,9 @@ pub struct MatchScenario {
 	pub rx_split_ping_ms: Option<u64>,
 	/// calls made (and answered) before the scenario proper, so that its ids start here
 	pub warmup: usize,
+	/// the library's loop points (send task, read task) and the transport points park only at their first occurrence:
+	/// afterwards the tasks run several iterations back to back
+	pub hold_once: bool,
 }
 
 fn mask_lib(l: &str) -> bool {
@@ -98,6 +101,7 @@ impl Scenario for MatchScenario {
 		format!("cli_mem/match:{:?}:{:?}:{:?}:{:?}:{}{}", self.id_kind, self.ops, self.answers, self.extras, if self.lib_points { "lib" } else { "nolib" }, if self.tx_points { ":txpoints" } else { "" })
 			+ &self.rx_split_ping_ms.map_or(String::new(), |ms| format!(":rxsplit-ping{ms}ms"))
 			+ &(if self.warmup > 0 { format!(":warmup{}", self.warmup) } else { String::new() })
+			+ if self.hold_once { ":hold-once" } else { "" }
 	}
 	fn config(&self) -> Value {
 		json!({"id_kind": format!("{:?}", self.id_kind), "ops": format!("{:?}", self.ops), "answers": format!("{:?}", self.answers), "extras": format!("{:?}", self.extras),
@@ -105,6 +109,9 @@ impl Scenario for MatchScenario {
 	}
 	fn mask(&self) -> fn(&str) -> bool {
 		if self.lib_points { mask_lib } else { mask_nolib }
+	}
+	fn once_labels(&self) -> &'static [&'static str] {
+		if self.hold_once { &["client:send_task:before_handle", "tx:send", "tx:send:returning"] } else { &[] }
 	}
 	fn setup(&self) -> CliState {
 		clim::setup(&CliScenarioCfg { rx_split: self.rx_split_ping_ms.is_some(), ping_ms: self.rx_split_ping_ms, warmup: self.warmup, id_kind: self.id_kind, ops: self.ops.clone(), env: self.env(), fail_send_at: None, tx_points: self.tx_points, buffer_cap: 4, late_after: if self.ops.contains(&FeOp::LateSubscribe) { 1 } else { 0 } })
@@ -265,7 +272,7 @@ pub fn scenarios(thorough: bool) -> Vec<MatchScenario> {
 					continue;
 				}
 				for id_kind in [IdKind::Number, IdKind::String] {
-					out.push(MatchScenario { id_kind, ops: ops.clone(), answers: pat.clone(), extras: ex.clone(), lib_points: thorough, tx_points: false, rx_split_ping_ms: None, warmup: 0 });
+					out.push(MatchScenario { id_kind, ops: ops.clone(), answers: pat.clone(), extras: ex.clone(), lib_points: thorough, tx_points: false, rx_split_ping_ms: None, warmup: 0, hold_once: false });
 				}
 			}
 		}
@@ -274,14 +281,24 @@ pub fn scenarios(thorough: bool) -> Vec<MatchScenario> {
 	for id_kind in [IdKind::Number, IdKind::String] {
 		for ops in [vec![FeOp::Call], vec![FeOp::Call, FeOp::Call], vec![FeOp::Call, FeOp::Subscribe], vec![FeOp::Batch(2), FeOp::Call]] {
 			let n = ops.len();
-			out.push(MatchScenario { id_kind, ops, answers: vec![Ans::Ok; n], extras: vec![], lib_points: thorough, tx_points: true, rx_split_ping_ms: None, warmup: 0 });
+			out.push(MatchScenario { id_kind, ops, answers: vec![Ans::Ok; n], extras: vec![], lib_points: thorough, tx_points: true, rx_split_ping_ms: None, warmup: 0, hold_once: false });
 		}
 		for ops in [vec![FeOp::AbandonCall, FeOp::Call], vec![FeOp::AbandonCall, FeOp::Subscribe], vec![FeOp::AbandonCall, FeOp::AbandonCall, FeOp::Call]] {
 			let n = ops.len();
-			out.push(MatchScenario { id_kind, ops: ops.clone(), answers: vec![Ans::Ok; n], extras: vec![], lib_points: false, tx_points: false, rx_split_ping_ms: None, warmup: 0 });
+			out.push(MatchScenario { id_kind, ops: ops.clone(), answers: vec![Ans::Ok; n], extras: vec![], lib_points: false, tx_points: false, rx_split_ping_ms: None, warmup: 0, hold_once: false });
 			let mut a = vec![Ans::Ok; n];
 			a[0] = Ans::Err;
-			out.push(MatchScenario { id_kind, ops, answers: a, extras: vec![], lib_points: false, tx_points: false, rx_split_ping_ms: None, warmup: 0 });
+			out.push(MatchScenario { id_kind, ops, answers: a, extras: vec![], lib_points: false, tx_points: false, rx_split_ping_ms: None, warmup: 0, hold_once: false });
+		}
+	}
+	// (g) the send task / transport held back once, then running back to back (once-only points)
+	for id_kind in [IdKind::Number, IdKind::String] {
+		for ops in [vec![FeOp::Call, FeOp::Call, FeOp::Call], vec![FeOp::Call, FeOp::Batch(2), FeOp::Subscribe], vec![FeOp::AbandonCall, FeOp::Call, FeOp::Call]] {
+			if !thorough && matches!(id_kind, IdKind::String) {
+				continue;
+			}
+			let n = ops.len();
+			out.push(MatchScenario { id_kind, ops, answers: vec![Ans::Ok; n], extras: vec![], lib_points: true, tx_points: true, rx_split_ping_ms: None, warmup: 0, hold_once: true });
 		}
 	}
 	// (c) a transport whose receive() is not cancellation safe (as the WebSocket transport's is not) while the read task's
@@ -293,7 +310,7 @@ pub fn scenarios(thorough: bool) -> Vec<MatchScenario> {
 			}
 			let n = ops.len();
 			for ms in if thorough { vec![1, 2, 3] } else { vec![2] } {
-				out.push(MatchScenario { id_kind, ops: ops.clone(), answers: vec![Ans::Ok; n], extras: vec![], lib_points: false, tx_points: false, rx_split_ping_ms: Some(ms), warmup: 0 });
+				out.push(MatchScenario { id_kind, ops: ops.clone(), answers: vec![Ans::Ok; n], extras: vec![], lib_points: false, tx_points: false, rx_split_ping_ms: Some(ms), warmup: 0, hold_once: false });
 			}
 		}
 	}
@@ -301,13 +318,13 @@ pub fn scenarios(thorough: bool) -> Vec<MatchScenario> {
 	//     subscribe is answered with the old id before or after the unsubscribe is acknowledged
 	for id_kind in [IdKind::Number, IdKind::String] {
 		// wire: 0 subscribe, 1 unsubscribe, 2 second subscribe; answers to all three, in every order the schedule allows
-		out.push(MatchScenario { id_kind, ops: vec![FeOp::SubscribeDrop, FeOp::LateSubscribe], answers: vec![Ans::Ok, Ans::Ok, Ans::Ok], extras: vec![Extra::ConstSubscriptionId], lib_points: false, tx_points: false, rx_split_ping_ms: None, warmup: 0 });
-		out.push(MatchScenario { id_kind, ops: vec![FeOp::SubscribeDrop, FeOp::LateSubscribe], answers: vec![Ans::Ok, Ans::Omit, Ans::Ok], extras: vec![Extra::ConstSubscriptionId], lib_points: false, tx_points: false, rx_split_ping_ms: None, warmup: 0 });
+		out.push(MatchScenario { id_kind, ops: vec![FeOp::SubscribeDrop, FeOp::LateSubscribe], answers: vec![Ans::Ok, Ans::Ok, Ans::Ok], extras: vec![Extra::ConstSubscriptionId], lib_points: false, tx_points: false, rx_split_ping_ms: None, warmup: 0, hold_once: false });
+		out.push(MatchScenario { id_kind, ops: vec![FeOp::SubscribeDrop, FeOp::LateSubscribe], answers: vec![Ans::Ok, Ans::Omit, Ans::Ok], extras: vec![Extra::ConstSubscriptionId], lib_points: false, tx_points: false, rx_split_ping_ms: None, warmup: 0, hold_once: false });
 	}
 	// (f) a server that reuses a subscription id for a new subscribe while the unsubscribe of the old one is unacknowledged, (e) a batch reply packed into one array behind notifications that overflow an unread subscription
 	for id_kind in [IdKind::Number, IdKind::String] {
 		for n in if thorough { vec![1usize, 2, 3] } else { vec![2] } {
-			out.push(MatchScenario { id_kind, ops: vec![FeOp::SubscribeHold, FeOp::Batch(n)], answers: vec![Ans::Ok, Ans::Ok], extras: vec![Extra::NotifsThenBatchInOneArray], lib_points: false, tx_points: false, rx_split_ping_ms: None, warmup: 0 });
+			out.push(MatchScenario { id_kind, ops: vec![FeOp::SubscribeHold, FeOp::Batch(n)], answers: vec![Ans::Ok, Ans::Ok], extras: vec![Extra::NotifsThenBatchInOneArray], lib_points: false, tx_points: false, rx_split_ping_ms: None, warmup: 0, hold_once: false });
 		}
 	}
 	// (d) ids that cross a power of ten (string ids compare lexicographically: "10" < "9")
@@ -315,7 +332,7 @@ pub fn scenarios(thorough: bool) -> Vec<MatchScenario> {
 		for warmup in if thorough { vec![7, 8, 9, 10, 98, 99] } else { vec![8, 9] } {
 			for ops in [vec![FeOp::Batch(3)], vec![FeOp::Batch(2), FeOp::Call]] {
 				let n = ops.len();
-				out.push(MatchScenario { id_kind, ops, answers: vec![Ans::Ok; n], extras: vec![], lib_points: false, tx_points: false, rx_split_ping_ms: None, warmup });
+				out.push(MatchScenario { id_kind, ops, answers: vec![Ans::Ok; n], extras: vec![], lib_points: false, tx_points: false, rx_split_ping_ms: None, warmup, hold_once: false });
 			}
 		}
 	}
